@@ -47,7 +47,7 @@ func init() {
 		Rule: fmt.Sprintf("histories H = all subsets of <= 2 (quick) / <= 3 (thorough) of %d heap ingredients; per H: O=run(H), C=O.Copy(), C2=C.Copy(), R=replay(H). "+
 			"equiv: one case per H (Copy returns; dump(O)=dump(C)=dump(C2)=dump(R)); non-trivial when H is non-empty. "+
 			"heap: one case per H and runtime pair (E5 intersection of Go heap graphs vs allow-list); non-trivial when H is non-empty. "+
-			"isolate: one case per (H, mutation M applicable to H (%d mutations: per-ingredient ones when the ingredient is in H, 6 generic ones for |H| <= 1 quick / <= 2 thorough), side mutated in {O,C,C2}): result and dump of the mutated side equal those of replay+M, the dumps of the other sides (its pair partners in quick, both in thorough) are unchanged; "+
+			"isolate: one case per (H, mutation M applicable to H (%d mutations: per-ingredient ones when the ingredient is in H, 6 generic ones for |H| <= 1 quick / <= 2 thorough), side mutated in {O,C,C2}): result and dump of the mutated side equal those of replay+M, the dumps of the other sides (its pair partners; both other runtimes in thorough for |H| <= 2) are unchanged; "+
 			"non-trivial when M changes the dump of the replayed runtime.", len(ingredients), len(mutations)),
 		Families: []engine.Family{
 			{Name: "equiv", Run: runEquiv},
@@ -151,8 +151,9 @@ func applicable(h history, genericMax int) []mutation {
 	return out
 }
 
-// observed lists the sides dumped after a mutation of side d. Quick: the pair(s) d
-// belongs to (O~C, C~C2); thorough: all three runtimes.
+// observed lists the sides dumped after a mutation of side d: the pair(s) d belongs
+// to (O~C, C~C2); in the thorough tier all three runtimes for histories of up to two
+// ingredients (the third pairing O~C2 of larger histories is covered by family heap).
 func observed(d string, thorough bool) []string {
 	if thorough || d == "C" {
 		return sides
@@ -557,7 +558,7 @@ func runIsolate(r *engine.Run) {
 				}
 				res := runCanon(w.side(d), m.Src)
 				after := map[string]string{}
-				obsSides := observed(d, r.Thorough())
+				obsSides := observed(d, r.Thorough() && len(h.idx) <= 2)
 				for _, s := range obsSides {
 					after[s] = dump(w.side(s))
 				}
